@@ -123,3 +123,34 @@ pub fn header_decode_bounds_native(first: u8) -> u32 {
     }
     1 + (n > 0) as u32
 }
+
+/// Native replay body for the E2 query `e2_decrypt_header_sample_bounds` (C04 / C03): every proper prefix of a
+/// short-header datagram is decoded and unprotected with a header key that - like the real ones - slices
+/// `sample` bytes starting 4 bytes after the packet-number offset.  A truncated datagram must be refused as too
+/// short; it must never make the key index past the end.
+pub fn truncated_prefixes_native(sample: u8) -> u32 {
+    struct SlicingKey(usize);
+    impl crate::crypto::HeaderKey for SlicingKey {
+        fn decrypt(&self, pn_offset: usize, packet: &mut [u8]) {
+            let _sample = &packet[pn_offset + 4..pn_offset + 4 + self.0]; // panics when the packet is too short
+        }
+        fn encrypt(&self, _: usize, _: &mut [u8]) {}
+        fn sample_size(&self) -> usize {
+            self.0
+        }
+    }
+    let parser = crate::FixedLengthConnectionIdParser::new(8);
+    let key = SlicingKey(sample as usize);
+    let full: Vec<u8> = core::iter::once(0x40u8).chain((1..64u8).map(|i| i.wrapping_mul(7))).collect();
+    let (mut ok, mut short) = (0, 0);
+    for n in 1..=full.len() {
+        let Ok((d, _)) = PartialDecode::new(BytesMut::from(&full[..n]), &parser, &[1], false) else { continue };
+        match d.finish(Some(&key)) {
+            Ok(_) => ok += 1,
+            Err(_) => short += 1,
+        }
+    }
+    assert!(ok > 0, "the complete datagram must decode");
+    assert!(short > 0 || sample == 0);
+    1
+}
